@@ -207,6 +207,14 @@ def redraw_params(model, t):
     must not accumulate over trials: large attention weights saturate the softmax and a saturated softmax gives
     exactly-zero weight to most columns, hiding their influence.)"""
     model.reset_parameters()
+    # StypeWiseFeatureEncoder.reset_parameters is inherited as a no-op: reset the stype encoders themselves
+    from torch_frame.nn.encoder.stype_encoder import StypeEncoder
+    for m in model.modules():
+        if isinstance(m, StypeEncoder) and m is not model:
+            try:
+                m.reset_parameters()
+            except Exception:
+                pass
     randomize_params(model, [0.05, 0.15, 0.3][t % 3])
     model.eval()
     return model
@@ -215,6 +223,83 @@ def redraw_params(model, t):
 def fwd(model, tf):
     with torch.no_grad():
         return model(tf)
+
+
+# ------------------------------------------------------------------ forward hooks (intermediate tensors)
+def _get(obj, path):
+    for a in path:
+        obj = obj[a] if isinstance(a, int) else getattr(obj, a)
+    return obj
+
+
+# model -> [(probe name, attribute path, "pre" | "post")]; attribute names are the repository's; a probe whose
+# path does not resolve is reported as unmeasured (None), never as an error
+PROBES = {
+    "MLP": [("mlp_in", ["mlp"], "pre")],
+    "ResNet": [("backbone_in", ["backbone"], "pre"), ("decoder_in", ["decoder"], "pre")],
+    # (the input of TabNet's final Linear is a sum of ReLU outputs: dead units hide dependencies, not probed)
+    "TabNet": [("bn_in", ["bn"], "pre"), ("mask0", ["attn_transformers", 0], "post")],
+    "FTTransformer": [("transformer_in", ["backbone", "transformer"], "pre"), ("decoder_in", ["decoder"], "pre")],
+    "TabTransformer": [("conv0_in", ["tab_transformer_convs", 0], "pre"), ("decoder_in", ["decoder"], "pre")],
+    "Trompt": [("prompts", ["trompt_convs"], "post-all")],
+    "ExcelFormer": [("decoder_in", ["excelformer_decoder"], "pre")],
+}
+
+
+def probe_names(name, has_cat=True):
+    names = [n for n, _, _ in PROBES[name]]
+    if name == "TabTransformer" and not has_cat:
+        names = [n for n in names if n != "conv0_in"]
+    return names + ["final"]
+
+
+def fwd_probes(name, model, tf, has_cat=True):
+    """One evaluation forward pass; returns [tensor [B, K] or None per probe ..., final output [B, K]]."""
+    grabbed, handles = {}, []
+
+    def flat(t):
+        return t.detach().reshape(t.shape[0], -1).clone()
+
+    for pname, path, kind in PROBES[name]:
+        if name == "TabTransformer" and pname == "conv0_in" and not has_cat:
+            continue
+        try:
+            mod = _get(model, path)
+        except Exception:
+            grabbed[pname] = None
+            continue
+        if kind == "pre":
+            handles.append(mod.register_forward_pre_hook(
+                lambda m, args, pname=pname: grabbed.__setitem__(pname, flat(args[0]))))
+        elif kind == "post":
+            handles.append(mod.register_forward_hook(
+                lambda m, args, out, pname=pname: grabbed.__setitem__(pname, flat(out))))
+        else:   # every module of a ModuleList, outputs concatenated in order
+            parts = grabbed.setdefault(pname + "#parts", {})
+            for i, sub in enumerate(mod):
+                handles.append(sub.register_forward_hook(
+                    lambda m, args, out, i=i, parts=parts: parts.__setitem__(i, flat(out))))
+    try:
+        with torch.no_grad():
+            out = model(tf)
+    finally:
+        for h in handles:
+            h.remove()
+    res = []
+    for pname in probe_names(name, has_cat)[:-1]:
+        if pname + "#parts" in grabbed:
+            parts = grabbed[pname + "#parts"]
+            res.append(torch.cat([parts[i] for i in sorted(parts)], dim=1) if parts else None)
+        else:
+            res.append(grabbed.get(pname))
+    res.append(flat(out))
+    return out, res
+
+
+def changed_positions(a, b, r):
+    """Positions of row r that differ bit-for-bit between two [B, K] tensors."""
+    same = (a[r] == b[r]) | (torch.isnan(a[r]) & torch.isnan(b[r]))
+    return [k for k in range(a.shape[1]) if not bool(same[k])]
 
 
 # ------------------------------------------------------------------ perturbation
